@@ -76,6 +76,8 @@ pub fn worker(tier: &str, seed: u64, from: u64, to: u64, extra: &[String]) -> Ag
     let mut agg = Agg::default();
     let progress_file = std::env::var("VERIF_WORKER_OUT").unwrap_or_default();
     let stride = runner::stride_of(extra);
+    // debugging aid: run only the long sessions of the seed range
+    let only_heavy = std::env::var("VERIF_ONLY_HEAVY").is_ok();
     let mut i = from;
     while i < to {
         let this_i = i;
@@ -85,6 +87,9 @@ pub fn worker(tier: &str, seed: u64, from: u64, to: u64, extra: &[String]) -> Ag
             runner::note_progress(&progress_file, i);
         }
         let s = runner::run_seed(seed, i);
+        if only_heavy && !world_a::is_heavy(s, thorough, faults) {
+            continue;
+        }
         let g = world_a::generate(s, thorough, faults);
         let sequential = faults && rng::mix2(s, 99) % 6 == 0;
         let mut sched = rng::Rng::stream(s, "schedule");
@@ -117,6 +122,9 @@ pub fn worker(tier: &str, seed: u64, from: u64, to: u64, extra: &[String]) -> Ag
             Ok(out) => {
                 agg.steps += out.trace.steps;
                 agg.count("messages_sent", out.trace.sent.len() as u64);
+                if g.program.steps.len() >= 300 {
+                    agg.count("heavy_sessions(300+ messages, mostly edits of one note of 230-400 blocks)", 1);
+                }
                 agg.count("responses_received", out.trace.received.len() as u64);
                 agg.count("doc_notifications", out.trace.notifications_sent as u64);
                 agg.count("loop_panics_caught", out.trace.loop_panics.len() as u64);
